@@ -380,7 +380,14 @@ def run_history(ctx, idx, rng, tmp):
                     probe_level = int(rng.integers(0, len(chain)))
                 if feat == "emodulus" and rng.random() < 0.75:
                     # establish one of the documented scenarios first
-                    scen = str(rng.choice(["C", "A", "B", "C0"]))
+                    # (0 degC is only inside the documented range of the water model: the
+                    # probe must not change the medium or the model, and the temperature is
+                    # put back afterwards)
+                    scen = str(rng.choice(["C", "A", "B", "C0"]
+                                          if key not in ("emodulus medium",
+                                                         "emodulus viscosity model",
+                                                         "emodulus temperature")
+                                          else ["C", "A", "B"]))
                     want = {"emodulus lut": "LE-2D-FEM-19"}
                     if scen == "B":
                         want.update({"emodulus viscosity": 5.5, "emodulus medium": "other"})
@@ -452,6 +459,10 @@ def run_history(ctx, idx, rng, tmp):
                         cfg[sec][key] = v
                         deleted.discard((sec, key))
                         hist.append(["set", sec, key, v])
+                if eff_cfg().get("calculation", {}).get("emodulus temperature") == 0.0:
+                    ds.config["calculation"]["emodulus temperature"] = 23.0
+                    cfg["calculation"]["emodulus temperature"] = 23.0
+                    hist.append(["set", "calculation", "emodulus temperature", 23.0])
                 nontrivial = True
                 for f in read_before:
                     read_before[f] = "changed"
